@@ -30,7 +30,7 @@ import ast
 from ..astutil import call_name, calls, const_eval, names_in, param_names, stmts, walk_local
 from ..cfg import CFG
 from ..core import AnalysisError, Mutant
-from ..exprnorm import canon, check_spec, same_expr, show, spec, summarize
+from ..exprnorm import canon, check_spec, contains_expr, same_expr, show, spec, summarize, summarize_block
 from .C15 import assigns, dead_params, ret_expr, single_def
 
 EXPLANATION = (
@@ -466,13 +466,22 @@ def r4_outliers(ctx, s):
     carry = [k for k, st in enumerate(loop.body) if m and ast.unparse(st) == f"{m} = updated_{m}"]
     ctx.ob("R4.loop-carry", SUP, f.name, "inlier_mask = updated_inlier_mask", len(carry) == 1 and carry[0] < idx,
            "each iteration fits on the mask produced by the previous one", loop.lineno)
-    ctx.ob("R4.distance-pair", SUP, f.name, "sq_dist", "sq_dist = distance(filtered_fixed_coord, superimposed_coord) ** 2" in body,
-           "outliers are judged by the squared distance between fixed and fitted mobile anchors", loop.lineno)
-    thr = next((st for st in loop.body if isinstance(st, ast.Assign) and isinstance(st.value, ast.Compare) and "sq_dist" in ast.unparse(st.value)), None)
-    okt = thr is not None and same_expr(thr.value, "sq_dist <= upper_quantile + outlier_threshold * ipr") \
-        and "ipr = upper_quantile - lower_quantile" in body
-    ctx.ob("R4.threshold", SUP, f.name, ast.unparse(thr.value) if thr is not None else "threshold", okt,
-           "kept: sq_dist <= upper quantile + threshold * inter-percentile range", loop.lineno)
+    # one iteration composed symbolically (break tests dropped): what is written into the updated mask
+    it = summarize_block(loop.body, skip=lambda st: isinstance(st, ast.If) and any(isinstance(b, ast.Break) for b in st.body))
+    upd = it.env.get(f"updated_{m}") if m else None
+    ctx.need(isinstance(upd, ast.Call) and call_name(upd) == "__set__" and len(upd.args) == 3, "in-place update of the inlier mask in the loop")
+    written = upd.args[2]
+    M = m or "inlier_mask"
+    FIX, MOB = f"fixed_coord[..., updated_{M}, :]", f"mobile_coord[..., updated_{M}, :]"
+    D = f"distance({FIX}, __item__(superimpose({FIX}, {MOB}), 0)) ** 2"
+    S = f"(np.mean({D}, axis=0) if ({D}).ndim == 2 else {D})"
+    Q = f"np.quantile({S}, quantiles)"
+    ctx.ob("R4.distance-pair", SUP, f.name, "squared distance of fixed anchors to the fitted mobile anchors (mean over models)",
+           contains_expr(written, S) or contains_expr(written, D),
+           "outliers are judged by the squared distance between the fixed anchors and the mobile anchors fitted on the current mask", loop.lineno)
+    ctx.ob("R4.threshold", SUP, f.name, "sq_dist <= upper_quantile + outlier_threshold * (upper_quantile - lower_quantile)",
+           same_expr(written, f"{S} <= __item__({Q}, 1) + outlier_threshold * (__item__({Q}, 1) - __item__({Q}, 0))"),
+           "kept: sq_dist <= upper quantile + threshold * inter-percentile range; the loop writes " + ast.unparse(written)[:160], loop.lineno)
     ret = ret_expr(f)
     ctx.ob("R4.return", SUP, f.name, ast.unparse(ret), ast.unparse(ret) == "(transform.apply(mobile), transform, anchor_indices)",
            "the full mobile structure is transformed with the last fitted transformation", f.lineno)
